@@ -79,7 +79,8 @@ PROFILES = {
         },
         "core": ["vec", "tab_dict", "fp", "set", "tset", "view"],
         "knobs": {"p_fault": [0.0, 0.05], "p_natural": [0.0, 0.05], "p_wider": [0.1, 0.25], "max_objs": [4, 6, 9],
-                  "rare": [0.0, 0.02, 0.15], "len": [(0, 6), (0, 6), (5, 12)], "max_cols": [4, 4, 12], "p_reenter": [0.0, 0.05, 0.15]},
+                  "rare": [0.0, 0.02, 0.15], "len": [(0, 6), (0, 6), (5, 12)], "max_cols": [4, 4, 12], "p_reenter": [0.0, 0.05, 0.15],
+                  "kinds": [None, None, None, ["tcell", "int", "tcell", "str"]]},
         "steps": (15, 50),
         "vid": [[1, 0, 0], [1, 2, 0], [1, 1, 2], [0, 1, 3]],
     },
@@ -137,22 +138,24 @@ def swarm(rng, profile_name):
         knobs[k] = rng.choice(choices)
     lo, hi = p["steps"]
     steps = rng.randint(lo, hi)
-    if rng.random() < (0.04 if profile_name == "relhist" else 0.03) and profile_name in (
+    if rng.random() < (0.10 if profile_name == "relhist" else 0.03) and profile_name in (
             "alias", "shape", "dtype", "fingerprint", "derive", "lifetime", "relhist"):
         # a few runs cross the library's size-dependent branches (len > 1000): few objects, few steps
         u = rng.random()
+        if profile_name == "relhist":
+            u *= 0.56       # tables aggregated / joined repeatedly: 1001 rows mostly, 10001 sometimes
         knobs["len"] = (1001, 1003) if u < 0.45 else (10001, 10002) if u < 0.7 else (65537, 65539) if u < 0.85 else (70001, 70002)
         knobs["p_empty"] = 0.0
-        if "p_wider" in p["knobs"]:
+        if "p_wider" in p["knobs"] and profile_name != "relhist":
             knobs["p_wider"] = max(knobs.get("p_wider", 0.0), 0.4)      # size-dependent paths x promotion
-        if rng.random() < 0.6:
+        if rng.random() < 0.6 and profile_name != "relhist":
             # with any None rate at all a long vector is always nullable: the non-nullable side of a
             # size-dependent path would never be seen
             knobs["p_none"] = 0.0
         if rng.random() < 0.5:
             knobs["kinds"] = ["int", "date", "bool", "float", "int"]      # the promotable kinds
         knobs["max_objs"] = 3
-        steps = min(steps, 14)
+        steps = min(steps, 24 if profile_name == "relhist" else 14)
         if u >= 0.7:       # beyond 2**16 elements: a handful of steps on one or two objects
             knobs["max_objs"] = 2
             steps = min(steps, 6)
